@@ -646,6 +646,72 @@ theorem frames_nonempty (codec : Option Codec) (rows cols : Nat) (t : SegType) (
       rw [cellFrame_of_cell _ _ _ _ _ (some s, p) px hpx]
       simp [keep, hne]
 
+/-! ## quantisation error -/
+
+theorem rhe_cases' (q : Rat) :
+    (roundHalfEven q = q.floor ∧ q - (q.floor : Rat) ≤ 1 / 2) ∨
+    (roundHalfEven q = q.floor + 1 ∧ (q.floor : Rat) + 1 / 2 ≤ q) := by
+  unfold roundHalfEven
+  simp only []
+  split
+  · left; exact ⟨rfl, by linarith⟩
+  · rename_i h1
+    split
+    · right; refine ⟨rfl, ?_⟩; linarith
+    · rename_i h2
+      have : q - (q.floor : Rat) = 1 / 2 := by linarith
+      split
+      · left; exact ⟨rfl, by linarith⟩
+      · right; refine ⟨rfl, ?_⟩; linarith
+
+theorem lt_floor_add_one (q : Rat) : q < (q.floor : Rat) + 1 := by
+  have : q.floor < q.floor + 1 := by omega
+  have := Rat.floor_lt_iff.mp this
+  push_cast at this; exact this
+
+/-- rounding half to even moves a value by at most one half -/
+theorem rhe_error (q : Rat) : |((roundHalfEven q : Int) : Rat) - q| ≤ 1 / 2 := by
+  have h1 := floor_le_self q
+  have h2 := lt_floor_add_one q
+  rw [abs_le]
+  rcases rhe_cases' q with ⟨he, hb⟩ | ⟨he, hb⟩
+  · rw [he]; constructor <;> linarith
+  · rw [he]; push_cast; constructor <;> linarith
+
+/-- **"rounded to the stored quantisation"**: what reads back after rescaling, `quantise mfv x / mfv`, differs
+    from the fraction `x` that was passed in by at most half a quantisation step -/
+theorem quantise_error_bound (mfv : Nat) (hm : 1 ≤ mfv) (x : Rat) (h0 : 0 ≤ x) :
+    |((quantise mfv x : Nat) : Rat) / (mfv : Rat) - x| ≤ 1 / (2 * (mfv : Rat)) := by
+  have hmq : (0 : Rat) < (mfv : Rat) := by exact_mod_cast hm
+  have hnn : 0 ≤ roundHalfEven (x * (mfv : Rat)) := rhe_nonneg _ (mul_nonneg h0 (le_of_lt hmq))
+  have hq : ((quantise mfv x : Nat) : Rat) = ((roundHalfEven (x * (mfv : Rat)) : Int) : Rat) := by
+    unfold quantise
+    have : ((roundHalfEven (x * (mfv : Rat))).toNat : Int) = roundHalfEven (x * (mfv : Rat)) := Int.toNat_of_nonneg hnn
+    exact_mod_cast congrArg (fun z : Int => (z : Rat)) this
+  rw [hq]
+  have he := rhe_error (x * (mfv : Rat))
+  have : ((roundHalfEven (x * (mfv : Rat)) : Int) : Rat) / (mfv : Rat) - x
+      = (((roundHalfEven (x * (mfv : Rat)) : Int) : Rat) - x * (mfv : Rat)) / (mfv : Rat) := by
+    field_simp
+  rw [this]
+  have e : 1 / (2 * (mfv : Rat)) * (mfv : Rat) = 1 / 2 := by field_simp
+  rw [abs_le] at he ⊢
+  constructor
+  · rw [le_div_iff₀ hmq]
+    have : -(1 / (2 * (mfv : Rat))) * (mfv : Rat) = -(1 / 2) := by rw [neg_mul, e]
+    rw [this]; exact he.1
+  · rw [div_le_iff₀ hmq, e]; exact he.2
+
+/-- the read without `assert_missing_frames_are_empty` refuses exactly a request naming a source plane that no
+    frame references -/
+theorem strict_refuses (codec : Option Codec) (o : SegObj) (request : List Nat) (hnd : o.keys.Nodup) (p : Nat)
+    (hp : p ∈ request) (hmiss : p ∉ o.keys.map (·.2)) : readBySource codec o request false = .error .key := by
+  unfold readBySource
+  rw [if_neg (not_not.mpr hnd)]
+  have h2 : (request.any fun p => decide ¬ p ∈ o.keys.map (·.2)) = true :=
+    List.any_eq_true.mpr ⟨p, hp, by simpa using hmiss⟩
+  rw [if_pos ⟨by simp, h2⟩]
+
 /-! ## refusals -/
 
 theorem castMask_error_of_values (segs : List Nat) (t : SegType) (m : Mask)
